@@ -188,7 +188,9 @@ impl RandomDirector {
             return;
         }
         if !sp {
-            // fresh broker session
+            // fresh broker session: the client restarts its identifiers, so duplicates of old
+            // acknowledgements could name identifiers that are in use again
+            self.broker.sent_acks.clear();
             self.broker.out_q1.clear();
             self.broker.out_q2_pub.clear();
             self.broker.out_q2_rel.clear();
